@@ -98,7 +98,6 @@ class DesignConditions(Contract):
             if ok:
                 ymin = term_of(itp.lib.table["numpy.min"].fn(itp, [y1], {}))
                 ymax = term_of(itp.lib.table["numpy.max"].fn(itp, [y1], {}))
-                cx.assume(T.ge(ymax, 0), "requires: the largest ordinate of the contour is non-negative (metocean variables)")
                 cx.oblige("post.probe_line.spans_polygon", T.land(T.le(term_of(yl[0]), ymin), T.ge(term_of(yl[1]), ymax)), "post",
                           "the probe line spans the whole ordinate range of the (possibly axis-swapped) polygon, so no intersection is missed")
         # what was appended
